@@ -14,7 +14,6 @@ def check(ctx: Ctx) -> None:
     S.r_spawner_registry_who(ctx, "R04.5")
     from .elemtrack import r_spawner_kept
     r_spawner_kept(ctx, "R04.6")
-    A.r_validate_first(ctx, "R09.1", ("apply", "start"))
     S.r_wiring(ctx, "R04.3w", {"GROUP", "FUNC", "ARGS", "KWARGS", "NUM"}, 10, "group/func/args/kwargs/num roles")
     # no time-outs anywhere on the spawning path ("however long it has to wait")
     rep.rule("R04.4", "WHO(wait_for / timeout in the pool classes) is empty; positive control: gather calls of the same module are resolved")
